@@ -68,3 +68,59 @@ func TestDeadlock(t *testing.T) {
 		t.Fatal("lock-order deadlock not found")
 	}
 }
+
+// A thread that blocks on a raw channel (nothing the scheduler hooks) does not
+// stall the exploration: the scheduler goes on with the others and the thread
+// rejoins at its next hooked operation.
+func TestRawChannelBlock(t *testing.T) {
+	extSeen := 0
+	st := mc.Explore(mc.Options{MaxDeviations: 2}, func(c *mc.Ctx) {
+		s := mc.NewSched(c)
+		ch := make(chan struct{})
+		got := 0
+		s.Go("waiter", func() {
+			me := s.Me()
+			me.Point("before")
+			<-ch
+			me.Point("after")
+			got++
+		})
+		s.Go("closer", func() {
+			me := s.Me()
+			me.Point("work")
+			close(ch)
+			me.Point("done")
+		})
+		s.Run()
+		if s.Deadlock || len(s.Panics) > 0 || got != 1 {
+			t.Fatalf("deadlock=%v panics=%v got=%d trace=%v", s.Deadlock, s.Panics, got, c.Trace)
+		}
+		extSeen += s.ExtBlocks
+	})
+	if extSeen == 0 {
+		t.Fatalf("no schedule parked the waiter outside the scheduler (%d executions)", st.Executions)
+	}
+}
+
+// Nobody ever releases the raw channel: reported as a deadlock, Run returns.
+func TestRawChannelDeadlock(t *testing.T) {
+	found := false
+	mc.Explore(mc.Options{MaxDeviations: 1}, func(c *mc.Ctx) {
+		s := mc.NewSched(c)
+		ch := make(chan struct{})
+		s.Go("waiter", func() {
+			s.Me().Point("before")
+			<-ch
+		})
+		s.Go("other", func() {
+			s.Me().Point("work")
+		})
+		s.Run()
+		if s.Deadlock {
+			found = true
+		}
+	})
+	if !found {
+		t.Fatal("deadlock on a raw channel not reported")
+	}
+}
